@@ -12,6 +12,7 @@ is more robust w.r.t. argument numbering than using repr.
 # Modified by Anders Logg, 2009-2010.
 # Modified by Johan Hake, 2010.
 
+import re
 from functools import cmp_to_key
 
 from ufl.argument import Argument
@@ -88,12 +89,31 @@ def _cmp_argument(a, b):
         return 0
 
 
+_digits = re.compile(r"(\d+)")
+
+
+def _natural_key(s):
+    """Split a string into text and numbers: "C(..., 10)" -> [..., 10, ")"]."""
+    parts = _digits.split(s)
+    parts[1::2] = map(int, parts[1::2])
+    return parts
+
+
 def _cmp_terminal_by_repr(a, b):
     """Cmp terminal by repr."""
     # The cost of repr on a terminal is fairly small, and bounded
     x = repr(a)
     y = repr(b)
-    return -1 if x < y else (0 if x == y else 1)
+    if x == y:
+        return 0
+    # Numbers inside the repr (counts of constants, mesh ids, ...) are
+    # compared by value, such that the ordering of two terminals does
+    # not change when their counts grow from e.g. 9 and 10 to 10 and 11
+    kx = _natural_key(x)
+    ky = _natural_key(y)
+    if kx != ky:
+        return -1 if kx < ky else 1
+    return -1 if x < y else 1
 
 
 # Hack up a MultiFunction-like type dispatch for terminal comparisons
